@@ -507,7 +507,7 @@ func (s *Sim) CheckArith() {
 			r.Violate("C09", "block-subsidy", "", "CalcBlockSubsidy(%d) with interval %d = %d want %d", h, w.Net.SubsidyInterval, got, subsidyAt(h, w.Net.SubsidyInterval))
 		}
 	}
-	for _, k := range []int32{63, 64, 65, 100} {
+	for _, k := range []int32{1, 2, 31, 32, 33, 34, 63, 64, 65, 100} {
 		h := k * w.Net.SubsidyInterval
 		if got := blockchain.CalcBlockSubsidy(h, p); got != subsidyAt(h, w.Net.SubsidyInterval) {
 			r.Violate("C09", "block-subsidy", "", "CalcBlockSubsidy(%d) (halving %d) = %d want %d", h, k, got, subsidyAt(h, w.Net.SubsidyInterval))
